@@ -1587,7 +1587,7 @@ def make_expand_models(tenv):
         (rx(r"^<TakeWhile<&mut Peekable<Chars<'_>>, .*> as Iterator>::collect::<String>$"), m_collect_string_lazy),
         (rx(r"^<(?:peekable::)?PeekingTakeWhile<'_, Chars<'_>, .*> as Iterator>::collect::<String>$"), m_collect_peeking),
         (rx(r"^<String as AddAssign<&str>>::add_assign$"), m_add_assign),
-        (rx(r"^<(?:T|Matches<'_, char>) as Iterator>::next$"), m_next),
+        (rx(r"^<Matches<'_, char> as Iterator>::next$"), m_next),
     ]
 
 
